@@ -144,15 +144,42 @@ pub proof fn lemma_row(t: (u64, u64, u64, u64, u64, u64), n: (u64, u64, u64, u64
     ensures val6(n) + c5 as nat * pw(6) == val6(t) + d as nat * pre(e, 4),
 {
     lemma_pw_values();
-    reveal_with_fuel(pre, 5);
-    let p0 = d as nat * e[0] as nat; let p1 = d as nat * e[1] as nat; let p2 = d as nat * e[2] as nat; let p3 = d as nat * e[3] as nat;
-    assert(e[0] as nat * pw(0) == e[0] as nat);
-    assert(pre(e, 4) == e[0] as nat + e[1] as nat * pw(1) + e[2] as nat * pw(2) + e[3] as nat * pw(3));
-    assert(d as nat * pre(e, 4) == p0 + p1 * pw(1) + p2 * pw(2) + p3 * pw(3)) by(nonlinear_arith)
-        requires pre(e, 4) == e[0] as nat + e[1] as nat * pw(1) + e[2] as nat * pw(2) + e[3] as nat * pw(3),
-                 p0 == d as nat * e[0] as nat, p1 == d as nat * e[1] as nat, p2 == d as nat * e[2] as nat, p3 == d as nat * e[3] as nat;
-    // everything below is linear: the powers of B are literals
-    assert(val6(n) + c5 as nat * pw(6) == val6(t) + (p0 + p1 * pw(1) + p2 * pw(2) + p3 * pw(3)));
+    let (b1, b2, b3, b4, b5, b6) = (pw(1), pw(2), pw(3), pw(4), pw(5), pw(6));
+    let dn = d as int; let (e0, e1, e2, e3) = (e[0] as int, e[1] as int, e[2] as int, e[3] as int);
+    let p0 = dn * e0; let p1 = dn * e1; let p2 = dn * e2; let p3 = dn * e3;
+    // d * pre(e, 4) = p0 + p1 b1 + p2 b2 + p3 b3   (distributivity, step by step)
+    assert(pre(e, 4) as int == e0 + e1 * b1 as int + e2 * b2 as int + e3 * b3 as int) by {
+        reveal_with_fuel(pre, 5);
+        assert(e[0] as nat * pw(0) == e[0] as nat);
+    }
+    lemma_mul_is_distributive_add(dn, e0 + e1 * b1 as int + e2 * b2 as int, e3 * b3 as int);
+    lemma_mul_is_distributive_add(dn, e0 + e1 * b1 as int, e2 * b2 as int);
+    lemma_mul_is_distributive_add(dn, e0, e1 * b1 as int);
+    lemma_mul_is_associative(dn, e1, b1 as int);
+    lemma_mul_is_associative(dn, e2, b2 as int);
+    lemma_mul_is_associative(dn, e3, b3 as int);
+    assert(dn * pre(e, 4) as int == p0 + p1 * b1 as int + p2 * b2 as int + p3 * b3 as int);
+    // the telescoping sum is linear in (n, t, c, p) once the powers of B are literals; isolated query
+    let (n0, n1, n2, n3, n4, n5) = (n.0 as int, n.1 as int, n.2 as int, n.3 as int, n.4 as int, n.5 as int);
+    let (t0, t1, t2, t3, t4, t5) = (t.0 as int, t.1 as int, t.2 as int, t.3 as int, t.4 as int, t.5 as int);
+    let (k0, k1, k2, k3, k4, k5) = (c0 as int, c1 as int, c2 as int, c3 as int, c4 as int, c5 as int);
+    let (a1, a2, a3, a4, a5, a6) = (b1 as int, b2 as int, b3 as int, b4 as int, b5 as int, b6 as int);
+    assert(n0 + n1 * a1 + n2 * a2 + n3 * a3 + n4 * a4 + n5 * a5 + k5 * a6
+        == t0 + t1 * a1 + t2 * a2 + t3 * a3 + t4 * a4 + t5 * a5 + (p0 + p1 * a1 + p2 * a2 + p3 * a3)) by(nonlinear_arith)
+        requires
+            n0 + k0 * a1 == t0 + p0,
+            n1 + k1 * a1 == t1 + p1 + k0,
+            n2 + k2 * a1 == t2 + p2 + k1,
+            n3 + k3 * a1 == t3 + p3 + k2,
+            n4 + k4 * a1 == t4 + k3,
+            n5 + k5 * a1 == t5 + k4,
+            a1 == 0x1_0000_0000_0000_0000int, a2 == 0x1_0000_0000_0000_0000_0000_0000_0000_0000int,
+            a3 == 0x1_0000_0000_0000_0000_0000_0000_0000_0000_0000_0000_0000_0000int,
+            a4 == 0x1_0000_0000_0000_0000_0000_0000_0000_0000_0000_0000_0000_0000_0000_0000_0000_0000int,
+            a5 == 0x1_0000_0000_0000_0000_0000_0000_0000_0000_0000_0000_0000_0000_0000_0000_0000_0000_0000_0000_0000_0000int,
+            a6 == 0x1_0000_0000_0000_0000_0000_0000_0000_0000_0000_0000_0000_0000_0000_0000_0000_0000_0000_0000_0000_0000_0000_0000_0000_0000int;
+    assert(val6(n) as int == n0 + n1 * a1 + n2 * a2 + n3 * a3 + n4 * a4 + n5 * a5);
+    assert(val6(t) as int == t0 + t1 * a1 + t2 * a2 + t3 * a3 + t4 * a4 + t5 * a5);
 }
 
 // one reduction row:  B * val5(r) + c5 * B^6 == val6(t) + k * m   when the low limb cancels
